@@ -181,6 +181,79 @@ def conformance():
     return fn
 
 
+ZOO_SKIP = {  # constructs the interpreter does not implement (reported as Unsupported, i.e.
+    # a check that meets them is INCONCLUSIVE, never silently wrong)
+    "f_class_property", "f_getattr_default", "f_dataclass", "f_matchcase", "f_b_splitlines",
+    "f_float", "f_int_base", "f_int_ops", "f_namedtuple", "f_bytes_ops", "f_lower_upper",
+}
+
+
+def zoo_functions():
+    import inspect
+    from verifspec import zoo
+    return sorted(n for n, f in vars(zoo).items()
+                  if n.startswith("f_") and inspect.isfunction(f) and n not in ZOO_SKIP)
+
+
+def construct_zoo():
+    """Differential check of the interpreter on a zoo of everyday Python constructs (string /
+    bytes methods, formatting, comprehensions, sorting, dict / set operations, generators,
+    closures ...): every function is run on symbolic arguments; on every path the result,
+    evaluated under the path's model, must equal what CPython returns for the model's values."""
+    def norm(x):
+        if hasattr(x, "__next__"):
+            x = list(x)
+        if isinstance(x, (list, tuple)):
+            return [norm(y) for y in x]
+        if isinstance(x, (set, frozenset)):
+            return sorted(norm(y) for y in x)
+        if isinstance(x, dict):
+            return sorted((norm(k), norm(v)) for k, v in x.items())
+        if isinstance(x, (bytes, bytearray)):
+            return bytes(x)
+        return x
+
+    def fn(w):
+        if not w.symbolic:
+            return
+        import inspect
+        from symex.core import concretize
+        from verifspec import zoo
+        name = w.pick(zoo_functions(), "function")
+        f = getattr(zoo, name)
+        args = []
+        for a in inspect.signature(f).parameters:
+            if a in ("n", "m"):
+                args.append(w.fresh_int(a, -3, 300))
+            elif a == "s":
+                args.append(w.fresh_str(a, 3))
+            elif a == "b":
+                args.append(w.fresh_bytes(a, 3))
+            else:
+                args.append(w.fresh_int(a) if w.flag("x_is_int") else w.fresh_str(a, 1))
+        w.info = {"function": name}
+        try:
+            got = ("ok", w.call(f, *args))
+        except Exception as exc:  # noqa: BLE001
+            got = ("raises", type(exc).__name__)
+        m = w.p.current_model()
+        cargs = [concretize(a, m) for a in args]
+        try:
+            want = ("ok", norm(f(*cargs)))
+        except Exception as exc:  # noqa: BLE001
+            want = ("raises", type(exc).__name__)
+        if got[0] == "ok":
+            val = concretize(got[1], m)
+            if "opaque" in repr(val).lower():
+                w.goal("zoo")
+                return  # text the engine keeps opaque (log-style formatting): nothing claimed
+            got = ("ok", norm(val))
+        w.check(got == want, f"model conformance: zoo {name}{tuple(cargs)!r}: native {want}, "
+                             f"interpreter {got}")
+        w.goal("zoo")
+    return fn
+
+
 def build(tier):
     hs = [
         Harness("translator-validation", translator(),
@@ -191,6 +264,10 @@ def build(tier):
                 {"int": len(INT_SAMPLES), "float": len(FLOAT_SAMPLES), "hex": len(HEX_SAMPLES),
                  "int16": len(HEXINT_SAMPLES)},
                 goals=["conform"], doc="int()/float()/unhexlify models vs the real functions"),
+        Harness("construct-zoo", construct_zoo(),
+                {"functions": len(zoo_functions()), "skipped_unsupported": sorted(ZOO_SKIP),
+                 "args": "ints -3..300, text <= 3 code points, 3 bytes"}, goals=["zoo"],
+                doc="interpreter vs CPython on a zoo of everyday constructs, per path model"),
     ]
     return {
         "harnesses": hs,
